@@ -37,7 +37,7 @@ def Run(row: List[Opt[str]], i: int) -> int:
 
 @spec
 def CleanHeader(h: str) -> str:
-    return re_sub("( )+", " ", strip(h))
+    return re_sub("( )+", " ", strip(h.replace("\xa0", " ")))
 
 
 @contract("get_excel_column_headers")
